@@ -525,9 +525,41 @@ pub fn outcome_of(r: std::thread::Result<anoncreds::Result<bool>>) -> &'static s
     match r {
         Ok(Ok(true)) => "accept",
         Ok(Ok(false)) => "reject",
-        Ok(Err(_)) => "err",
+        Ok(Err(e)) => {
+            if std::env::var("AVH_DEBUG_ERR").is_ok() {
+                eprintln!("VERR {}", e);
+            }
+            "err"
+        }
         Err(_) => "panic",
     }
+}
+
+/// verification in a thread of its own with a time limit: "hang" when it does not come back (the thread is left behind;
+/// it only works on copies). Used where the verifier follows a map the caller supplies (interval overrides).
+pub fn verify_with_limit(w3c: bool, pj: Value, r: &PresentationRequest, c: &BuiltCtx, secs: u64) -> &'static str {
+    let rj = serde_json::to_value(r).unwrap();
+    let schemas: Vec<(String, Value)> = c.schemas.iter().map(|(k, v)| (k.to_string(), serde_json::to_value(v).unwrap())).collect();
+    let cred_defs: Vec<(String, Value)> = c.cred_defs.iter().map(|(k, v)| (k.to_string(), serde_json::to_value(v).unwrap())).collect();
+    let reg_defs: Option<Vec<(String, Value)>> = c.reg_defs.as_ref().map(|m| m.iter().map(|(k, v)| (k.to_string(), serde_json::to_value(v).unwrap())).collect());
+    let lists: Option<Vec<Value>> = c.lists.as_ref().map(|l| l.iter().map(|x| serde_json::to_value(x).unwrap()).collect());
+    let ovr: Option<Vec<(String, Vec<(u64, u64)>)>> = c.ovr.as_ref().map(|m| m.iter().map(|(k, v)| (k.to_string(), v.iter().map(|(a, b)| (*a, *b)).collect())).collect());
+    let (tx, rx) = std::sync::mpsc::channel();
+    std::thread::spawn(move || {
+        let out = (|| -> Option<&'static str> {
+            let c2 = BuiltCtx {
+                schemas: schemas.into_iter().map(|(k, v)| Some((SchemaId::new_unchecked(k), serde_json::from_value(v).ok()?))).collect::<Option<_>>()?,
+                cred_defs: cred_defs.into_iter().map(|(k, v)| Some((CredentialDefinitionId::new_unchecked(k), serde_json::from_value(v).ok()?))).collect::<Option<_>>()?,
+                reg_defs: match reg_defs { Some(m) => Some(m.into_iter().map(|(k, v)| Some((RevocationRegistryDefinitionId::new_unchecked(k), serde_json::from_value(v).ok()?))).collect::<Option<_>>()?), None => None },
+                lists: match lists { Some(l) => Some(l.into_iter().map(|v| serde_json::from_value(v).ok()).collect::<Option<_>>()?), None => None },
+                ovr: ovr.map(|m| m.into_iter().map(|(k, v)| (RevocationRegistryDefinitionId::new_unchecked(k), v.into_iter().collect())).collect()),
+            };
+            let r2: PresentationRequest = serde_json::from_value(rj).ok()?;
+            Some(if w3c { verify_w3c(&serde_json::from_value(pj).ok()?, &r2, &c2) } else { verify_legacy(&serde_json::from_value(pj).ok()?, &r2, &c2) })
+        })();
+        let _ = tx.send(out.unwrap_or("err"));
+    });
+    rx.recv_timeout(std::time::Duration::from_secs(secs)).unwrap_or("hang")
 }
 
 pub fn verify_legacy(p: &Presentation, r: &PresentationRequest, c: &BuiltCtx) -> &'static str {
@@ -665,6 +697,30 @@ pub struct CraftSub {
 
 /// Build a legacy presentation directly with the CL crate (`anoncreds::cl`): one link secret PER
 /// sub-proof, with or without the prover-side common attribute. `rp` is the requested_proof document.
+/// W3C counterpart of craft_legacy: an honest W3C presentation (structure, subjects) whose CL proof is replaced by a
+/// joint proof built here with a link secret of its own per sub-proof
+pub fn craft_w3c(w: &World, req: &PresentationRequest, picks: &[Pick], subs: &[CraftSub], common: bool) -> Option<(W3CPresentation, Vec<Prov>, AggProv)> {
+    use anoncreds::data_types::w3c::credential::CredentialProof;
+    use anoncreds::data_types::w3c::one_or_many::OneOrMany;
+    use anoncreds::data_types::w3c::proof::{DataIntegrityProof, PresentationProofValue, ProofPurpose};
+    let (mut p, _, _) = make_w3c(w, req, picks, subs.first()?.link)?;
+    let (doc, provs, agg) = craft_legacy(w, req, subs, common, json!({}))?;
+    if p.verifiable_credential.len() != subs.len() {
+        return None;
+    }
+    for (i, vc) in p.verifiable_credential.iter_mut().enumerate() {
+        let mut pv = vc.get_credential_presentation_proof().ok()?.clone();
+        pv.sub_proof = serde_json::from_value(doc["proof"]["proofs"][i].clone()).ok()?;
+        let method = pv.cred_def_id.to_string();
+        let proof = DataIntegrityProof::new(ProofPurpose::AssertionMethod, method, &pv, None).ok()?;
+        vc.proof = OneOrMany::One(CredentialProof::AnonCredsDataIntegrityProof(proof));
+    }
+    let aggregated = serde_json::from_value(doc["proof"]["aggregated_proof"].clone()).ok()?;
+    let method = serde_json::to_value(&p.proof).ok()?["verificationMethod"].as_str().unwrap_or("").to_string();
+    p.proof = DataIntegrityProof::new(ProofPurpose::Authentication, method, &PresentationProofValue { aggregated }, Some(agg.nonce.clone())).ok()?;
+    Some((p, provs, agg))
+}
+
 pub fn craft_legacy(w: &World, req: &PresentationRequest, subs: &[CraftSub], common: bool, rp: Value) -> Option<(Value, Vec<Prov>, AggProv)> {
     use anoncreds::cl::{Predicate, PredicateType, Prover};
     let res = std::panic::catch_unwind(std::panic::AssertUnwindSafe(|| -> Option<Value> {
